@@ -438,6 +438,45 @@ fn check_type_relation<T: TypeLookup>(
             })
         }
 
+        // Partial type vs concrete tuple. A partial is never assignable to a concrete tuple (it
+        // also contains tuples with further fields), so ALL mode falls through to `false` below.
+        // For overlap (ANY) the two share a value when the tuple has the partial's name (if
+        // any) and every field the partial lists, with an overlapping type.
+        (
+            Type::Partial {
+                name: partial_name,
+                fields: partial_fields,
+            },
+            Type::Tuple(concrete_id),
+        ) if mode == UnionMode::Any => {
+            let Some(concrete_info) = lookup.lookup_tuple(*concrete_id) else {
+                return false;
+            };
+
+            if let Some(pname) = partial_name
+                && concrete_info.name.as_ref() != Some(pname)
+            {
+                return false;
+            }
+
+            partial_fields.iter().all(|(partial_fname, partial_ftype)| {
+                concrete_info
+                    .fields
+                    .iter()
+                    .any(|(concrete_fname, concrete_ftype)| {
+                        concrete_fname.as_ref() == Some(partial_fname)
+                            && check_type_relation(
+                                *partial_ftype,
+                                *concrete_ftype,
+                                lookup,
+                                mode,
+                                assumptions,
+                                type_stack,
+                            )
+                    })
+            })
+        }
+
         // Partial vs partial - check structural compatibility
         (
             Type::Partial {
